@@ -249,6 +249,7 @@ Section Top.
     intros EA HW H. unfold build in H. destruct t as [docs|n d ents]; [discriminate|].
     rewrite EA in H. cbn [bind] in H.
     destruct (mapM (hash_res nonstr) m) as [m1| | |] eqn:EH; cbn [bind] in H; try discriminate.
+    destruct (hash_check m1) as [[]| | |]; cbn [bind] in H; try discriminate.
     destruct pipe_rules as [rules| | |] eqn:ER; cbn [bind] in H; try discriminate.
     destruct (nameref_transform cs nonstr rules m1) as [m2| | |] eqn:EN; cbn [bind] in H; try discriminate.
     destruct (ignore_local m2) as [m2l| | |] eqn:EL; cbn [bind] in H; try discriminate.
